@@ -1,9 +1,13 @@
 package props
 
 import (
+	"bytes"
 	"fmt"
 	"sort"
 	"testing"
+
+	ethcommon "github.com/ethereum/go-ethereum/common"
+	ethcrypto "github.com/ethereum/go-ethereum/crypto"
 
 	sdk "github.com/cosmos/cosmos-sdk/types"
 	authtypes "github.com/cosmos/cosmos-sdk/x/auth/types"
@@ -80,6 +84,7 @@ func c15Opts() bridge.GenOpts {
 	o.MaxVals = 4
 	o.Holders = true
 	o.MinOps, o.MaxOps = 10, 50
+	o.Rotations = true
 	o.Weights = map[string]int{"sign": 6, "oprice": 4, "oholders": 3, "relay": 8, "deposit": 8, "transfer": 8}
 	return o
 }
@@ -101,6 +106,51 @@ func TestC15(t *testing.T) {
 				return nil
 			}
 			old := it.H
+			// key rotations after the history: the registry then holds current and retired entries
+			var retired [][]byte
+			if len(c.Rot) > 0 {
+				if err := old.Begin(old.Height+1, old.Time+5); err != nil {
+					rec.Label("stopped-by:rotation-block")
+					return nil
+				}
+				gen := map[string]int{}
+				for _, r := range c.Rot {
+					v := r.Val % len(old.Staking.Vals)
+					ch := []string{"ethereum", "bsc", "minter"}[r.Chain%3]
+					ctx := old.Ctx()
+					oldEth := old.K.GetValidatorExternalAddress(ctx, mtypes.ChainID(ch), sim.ValAddr(v))
+					oldOrch := old.K.GetExternalOrchestratorAddress(ctx, mtypes.ChainID(ch), oldEth)
+					k := fmt.Sprintf("%s|%d", ch, v)
+					gen[k]++
+					acc := old.Acc.GetAccount(ctx, sdk.AccAddress(sim.ValAddr(v)))
+					if acc == nil {
+						acc = old.Acc.NewAccountWithAddress(ctx, sdk.AccAddress(sim.ValAddr(v)))
+					}
+					seq := acc.GetSequence()
+					bz := old.Cdc.MustMarshal(&mtypes.DelegateKeysSignMsg{ValidatorAddress: sim.ValAddr(v).String(), Nonce: seq})
+					sg, _ := mtypes.NewEthereumSignature(ethcrypto.Keccak256Hash(bz).Bytes(), sim.EthKey(v, ch, gen[k]))
+					acc.SetSequence(seq + 1)
+					old.Acc.SetAccount(ctx, acc)
+					no := sim.OrchAddr(2000 + 100*v + 10*r.Orch + gen[k])
+					res := old.Deliver(&mtypes.MsgDelegateKeys{ValidatorAddress: sim.ValAddr(v).String(), OrchestratorAddress: no.String(), ExternalAddress: sim.EthAddr(v, ch, gen[k]).Hex(), EthSignature: sg, ChainId: ch})
+					if res.Err == nil && (oldEth != ethcommon.Address{}) {
+						retired = append(retired, oldEth.Bytes(), []byte(oldOrch))
+						rec.Label("with-rotated-keys")
+					}
+				}
+				if err := old.End(); err != nil {
+					rec.Label("stopped-by:rotation-block")
+					return nil
+				}
+			}
+			isRetired := func(k string) bool {
+				for _, r := range retired {
+					if len(r) > 0 && bytes.Contains([]byte(k), r) {
+						return true
+					}
+				}
+				return false
+			}
 			nh, err := restart(old)
 			if err != nil {
 				return pbt.Failf("import-fails", "%v", err)
@@ -129,6 +179,11 @@ func TestC15(t *testing.T) {
 					for k, v := range x[p] {
 						w, ok := y[p][k]
 						if !ok {
+							if (p == mtypes.OrchestratorValidatorAddressKey || p == mtypes.ExternalOrchestratorAddressKey) && isRetired(k) {
+								// entry of a rotated-away key: still honoured by the running chain (a retired orchestrator keeps voting), not exported
+								diffs = append(diffs, pbt.Failf("state-not-preserved:retired-delegate-keys", "%s: key %x (entry of a retired orchestrator / external key, still honoured before export) is missing after import", names[p], k))
+								continue
+							}
 							diffs = append(diffs, pbt.Failf("state-not-preserved:"+names[p], "%s: key %x present before export is missing after import", names[p], k))
 							break
 						}
